@@ -12,8 +12,8 @@ import (
 	"testing"
 	"time"
 
-	"pgregory.net/rapid"
 	pb "google.golang.org/protobuf/proto"
+	"pgregory.net/rapid"
 
 	time2 "github.com/oxia-db/oxia/common/time"
 	"github.com/oxia-db/oxia/coordinator/model"
@@ -28,20 +28,21 @@ import (
 var opCounter int
 
 type caseState struct {
-	t       *rapid.T
-	c       *Cluster
-	steps   []string
-	ops     []*ClientOp
-	opsMu   sync.Mutex
-	labels  map[string]bool
-	keys    []string
-	lastVer map[string]int64 // client-side knowledge of versions (for conditional puts)
-	spares  []string
-	swapped bool
-	holds   []chan struct{}
-	maxTerm map[string]int64 // highest GetStatus term seen per node
-	viol    []string
-	nOps    int
+	t             *rapid.T
+	c             *Cluster
+	steps         []string
+	ops           []*ClientOp
+	opsMu         sync.Mutex
+	labels        map[string]bool
+	keys          []string
+	lastVer       map[string]int64 // client-side knowledge of versions (for conditional puts)
+	spares        []string
+	swapped       bool
+	holds         []chan struct{}
+	maxTerm       map[string]int64 // highest GetStatus term seen per node
+	deletionsSeen map[string]int
+	viol          []string
+	nOps          int
 }
 
 func (s *caseState) logf(f string, a ...any) { s.steps = append(s.steps, fmt.Sprintf(f, a...)) }
@@ -152,6 +153,12 @@ func (s *caseState) pollStatuses() {
 		if err != nil || st == nil {
 			continue
 		}
+		if d := n.deletionCount(); d != s.deletionsSeen[name] {
+			// the replica was deleted on the coordinator's order since the last poll: the node knows nothing of the
+			// shard any more, and a late request of an old election may re-create it with a lower term
+			s.deletionsSeen[name] = d
+			delete(s.maxTerm, name)
+		}
 		if prev, ok := s.maxTerm[name]; ok && st.Term < prev && st.Term >= 0 {
 			s.violation("C05: node %s reported term %d after having reported term %d (terms never decrease, also across restarts)", name, st.Term, prev)
 		}
@@ -186,7 +193,7 @@ func runProgram(t *rapid.T, focus string) {
 			c.close()
 		}
 	}()
-	s := &caseState{t: t, c: c, labels: map[string]bool{}, keys: []string{"k1", "k2", "k3"}, lastVer: map[string]int64{}, maxTerm: map[string]int64{}}
+	s := &caseState{t: t, c: c, labels: map[string]bool{}, keys: []string{"k1", "k2", "k3"}, lastVer: map[string]int64{}, maxTerm: map[string]int64{}, deletionsSeen: map[string]int{}}
 	for _, n := range c.order[rf:] {
 		s.spares = append(s.spares, n)
 	}
@@ -1160,7 +1167,6 @@ func TestC04_Cluster(t *testing.T) { rapid.Check(t, func(t *rapid.T) { runProgra
 func TestC05_Cluster(t *testing.T) { rapid.Check(t, func(t *rapid.T) { runProgram(t, "C05") }) }
 
 var _ = model.ShardStatusSteadyState
-
 
 // TestKF_C01 / _C02 / _C03 re-confirm the listed finding with a scripted schedule (no generator), each looking at
 // the consequence that its property forbids.
